@@ -10,7 +10,9 @@ mod c04;
 mod c05;
 mod c06;
 mod c07;
+mod c08;
 mod c09;
+mod explicit;
 mod c10;
 mod c11;
 mod c12;
@@ -21,6 +23,7 @@ mod c18;
 mod c19;
 mod reflex;
 mod sq;
+mod sqlparse;
 mod stmt;
 mod util;
 
@@ -225,6 +228,7 @@ fn main() {
         "C05" => { c05::run(&mut ctx); true }
         "C06" => { c06::run(&mut ctx); true }
         "C07" => { c07::run(&mut ctx); true }
+        "C08" => { c08::run(&mut ctx); true }
         "C09" => { c09::run(&mut ctx); true }
         "C10" => { c10::run(&mut ctx); true }
         "C11" => { c11::run(&mut ctx); true }
